@@ -159,11 +159,61 @@ func VerifCanonicalPath() {
 	for i := 0; i < len(c); i++ {
 		symapi.Assert(!(c[i] >= 'A' && c[i] <= 'Z'), "canonical-path-is-lower-case")
 	}
+	// equal to an independent reference: lower-cased, rooted, '.' and empty segments dropped,
+	// '..' resolved, the trailing '/' of a directory spelling kept
+	symapi.Assert(c == verifCanonRef(p), "canonical-path-equals-reference")
 	// the registry resolves both spellings to the same stream
 	s := verifStream(c)
 	Regist(s)
 	symapi.Assert(Get(p) == s, "lookup-by-any-spelling-finds-the-stream")
 	symapi.Reach("end")
+}
+
+func verifCanonRef(p string) string {
+	lo, hi := 0, len(p)
+	for lo < hi && p[lo] == ' ' {
+		lo++
+	}
+	for hi > lo && p[hi-1] == ' ' {
+		hi--
+	}
+	var segs [][]byte
+	var cur []byte
+	flush := func() {
+		switch {
+		case len(cur) == 0 || (len(cur) == 1 && cur[0] == '.'):
+		case len(cur) == 2 && cur[0] == '.' && cur[1] == '.':
+			if len(segs) > 0 {
+				segs = segs[:len(segs)-1]
+			}
+		default:
+			segs = append(segs, cur)
+		}
+		cur = nil
+	}
+	for i := lo; i < hi; i++ {
+		c := p[i]
+		if c == '/' {
+			flush()
+			continue
+		}
+		if c >= 'A' && c <= 'Z' {
+			c += 32
+		}
+		cur = append(cur, c)
+	}
+	flush()
+	out := []byte{'/'}
+	for i, sg := range segs {
+		if i > 0 {
+			out = append(out, '/')
+		}
+		out = append(out, sg...)
+	}
+	if hi > lo && p[hi-1] == '/' && len(segs) > 0 {
+		out = append(out, '/')
+	}
+	return string(out)
 }
 
 func VerifRegistryTwin() {
